@@ -76,7 +76,7 @@ theorem cinv_clr {env env' : Env} {s s' : St} {R : List GNode} {D : RefId × Nod
     have hin0 : n ∉ s.inputs := fun h => hin ((hc.mem_inputs n).mpr ⟨h, hnR⟩)
     obtain ⟨tr, hcert⟩ := hinv n v hl hin0
     obtain ⟨hform, hnone, hstable, hD⟩ := K1 n v tr hl hin0 hnR hcert
-    refine ⟨tr, ?_, ?_, ?_⟩
+    refine ⟨tr, ?_, ?_, ?_, fun a ha => hcert.just a ((hc.mem_ge _).mp ha).1⟩
     · rw [hform]; exact replay_congr env env' tr n.1 _ v hcert.replay hstable
     · intro hv; rw [hnone]; exact hcert.noneOK hv
     · intro ev hm
